@@ -10,8 +10,27 @@ META["assumptions"] = META["assumptions"] + ["log calls are made between operati
                                              "model comparison of emitted records is done for unpaged histories; paged ones are judged by the oracle"]
 
 
+def _step(tok):
+    return {"op": "step", "body": [{"ok": tok}], "amo": False, "retry": {"max": 1, "delays": [], "noretry": []}, "catch": True}
+
+
+# log calls around an operation that an external party completes (succeeded / failed / timed out / stopped, chosen by
+# the seeded event generator), caught by user code, followed by another suspension: every terminal status must count
+# as "completed work" for the silent/audible rule
+TEMPLATES = [
+    [{"op": "log", "msg": "A"}, _step("s"), {"op": "log", "msg": "B"}, {"op": "invoke", "payload": "s", "catch": True},
+     {"op": "log", "msg": "C"}, {"op": "wait", "secs": 1}, {"op": "log", "msg": "D"}, _step("t"), {"op": "log", "msg": "E"}],
+    [{"op": "log", "msg": "A"}, {"op": "cbnew", "slot": 0}, {"op": "log", "msg": "B"}, {"op": "cbres", "slot": 0, "catch": True},
+     {"op": "log", "msg": "C"}, {"op": "wait", "secs": 1}, {"op": "log", "msg": "D"}],
+    [{"op": "log", "msg": "A"}, {"op": "child", "body": [{"op": "log", "msg": "in-1"}, {"op": "invoke", "payload": "i5", "catch": True},
+                                                       {"op": "log", "msg": "in-2"}], "limit": 200, "summary": "", "catch": True},
+     {"op": "log", "msg": "B"}, {"op": "wait", "secs": 2}, {"op": "log", "msg": "C"}],
+]
+
+
 def run(ctx):
-    comp_engine.run(ctx, "C17", crash_p=0.2, fault_p=0.05)
+    corpus = [(t, 1000 + 17 * k) for t in TEMPLATES for k in range(ctx.scale(14, 60))]
+    comp_engine.run(ctx, "C17", crash_p=0.2, fault_p=0.05, corpus=corpus)
 
 
 def search(ctx):
